@@ -492,7 +492,20 @@ def run_case(idx, rng, P, rep):
             kinds.append('class_set')
             rep.count('class_sets')
             trace.append(('class_set', classes[ci].__name__, p, repr(v), 'own' if (ci, p) in own_default else 'copy-on-write'))
-            setattr(classes[ci], p, v)
+            how = rng.random()
+            if how < 0.8:
+                setattr(classes[ci], p, v)
+            elif how < 0.9:
+                # (the same assignment by another route)
+                classes[ci].param.update(**{p: v})
+                rep.count('class_sets_by_update')
+            else:
+                # (... and by the deprecated alias)
+                import warnings
+                with warnings.catch_warnings():
+                    warnings.simplefilter('ignore')
+                    classes[ci].param.set_default(p, v)
+                rep.count('class_sets_by_deprecated_alias')
             own_default[(ci, p)] = v
             if flags['inst_exists'] and flags['copy_made']:
                 flags['nontrivial'] = True
